@@ -1963,11 +1963,11 @@ class VM:
             return float("nan")
 
         def indexOf(*args):
-            search = to_string(args[0]) if args else ""
+            search = to_string(args[0] if args else UNDEFINED)
             return s.find(search, clamp(index_arg(args, 1)))
 
         def lastIndexOf(*args):
-            search = to_string(args[0]) if args else ""
+            search = to_string(args[0] if args else UNDEFINED)
             # A position that converts to NaN means "search the whole string"
             pos = to_number(args[1]) if len(args) > 1 else float("nan")
             end = len(s) if math.isnan(pos) else clamp(to_integer_or_infinity(pos))
@@ -2073,22 +2073,22 @@ class VM:
             return s * count
 
         def startsWith(*args):
-            search = to_string(args[0]) if args else ""
+            search = to_string(args[0] if args else UNDEFINED)
             pos = clamp(index_arg(args, 1))
             return s[pos:].startswith(search)
 
         def endsWith(*args):
-            search = to_string(args[0]) if args else ""
+            search = to_string(args[0] if args else UNDEFINED)
             length = clamp(index_arg(args, 1, len(s)))
             return s[:length].endswith(search)
 
         def includes(*args):
-            search = to_string(args[0]) if args else ""
+            search = to_string(args[0] if args else UNDEFINED)
             pos = clamp(index_arg(args, 1))
             return search in s[pos:]
 
         def replace(*args):
-            pattern = args[0] if args else ""
+            pattern = args[0] if args else UNDEFINED
             replacement = to_string(args[1]) if len(args) > 1 else "undefined"
 
             if isinstance(pattern, JSRegExp):
@@ -2161,7 +2161,7 @@ class VM:
                 return s
 
         def replaceAll(*args):
-            pattern = args[0] if args else ""
+            pattern = args[0] if args else UNDEFINED
             replacement = to_string(args[1]) if len(args) > 1 else "undefined"
 
             if isinstance(pattern, JSRegExp):
